@@ -11,7 +11,7 @@
    algorithm equal to CRC-32/MPEG-2, whence "the CRC of the whole section is zero". *)
 From Gots Require Import Base.Prelude Model.Pts Model.Scte Model.ScteEnc Spec.Scte35Spec
   Proofs.ScteExpected Proofs.ScteLogical Proofs.ScteDecode Proofs.ScteEncode Proofs.ScteRoundtrip Proofs.ScteSetters
-  Proofs.ScteCanonical Proofs.ScteClean Proofs.ScteWitness Proofs.ScteReflected Proofs.ScteNormalB Proofs.ScteEncBytes Proofs.ScteBuild.
+  Proofs.ScteCanonical Proofs.ScteClean Proofs.ScteWitness Proofs.ScteReflected Proofs.ScteNormalB Proofs.ScteEncBytes Proofs.ScteBuild Proofs.ScteReorder.
 Import Scte ScteEnc Scte35Spec.
 Local Open Scope N_scope.
 
@@ -75,6 +75,14 @@ Theorem C09_encode_decode_canonical : forall s, canonical s ->
   new_scte35 (ser_splice_info s) = Ok (expected s) /\ fst (update_data (expected s)) = ser_section s.
 Proof. exact encode_decode_canonical. Qed.
 Print Assumptions C09_encode_decode_canonical.
+
+(* in general: re-encoding ANY decoded supported section yields its canonical form `normalize s` (Proofs/ScteReorder.v):
+   foreign descriptors first (relative orders kept), then the segmentation descriptors, no stuffing, sap_type 3, exact
+   splice_command_length, fresh CRC: "the canonical SCTE 35 section for its field values" *)
+Theorem C09_reencode_normalizes : forall s, reencodable s ->
+  new_scte35 (ser_splice_info s) = Ok (expected s) /\ fst (update_data (expected s)) = ser_section (normalize s).
+Proof. exact reencode_normalizes. Qed.
+Print Assumptions C09_reencode_normalizes.
 
 (* built purely through the creation and setter API: for EVERY canonical section the API can express (no foreign
    descriptors, no splice_insert components: there is no setter for them; protocol_version, encryption_algorithm, cw_index
